@@ -76,16 +76,16 @@ C10Valid(s) == \E p \in {"d", "d/f", "f", "l", "s"} : \E sit \in Situations(p) :
 (* Universe = <<".", "a", "ab", "b", "c", "d", "d/a", "d/b", "e", "e/a">> ("a" is a  *)
 (* strict prefix of "ab"; the quick universe drops "c", "d/b", "e/a")             *)
 C09File(p) == Reg(IdxOf(p), 3 + IdxOf(p), 1000, 0, 420)
-C09Top == {"a", "ab", "b", "c"} \cap Paths
+C09Top == {"+p", "a", "ab", "b", "c", "d-"} \cap Paths
 C09Sub == {"d/a", "d/b"} \cap Paths
 (* trees: any subset of the top-level files, d absent or with any subset of  *)
 (* its children, e absent / empty / with e/a; extraneous entries take other  *)
-(* types by position (b: symlink, c: fifo) when `odd`                        *)
+(* types by position (ab, b: symlink, c: fifo) when `odd`                    *)
 C09Trees(withE, odd) ==
   { [p \in Paths |->
        IF p = "." THEN Dir(493)
        ELSE IF p \in C09Top THEN (IF p \in tops
-                                   THEN (IF odd /\ p = "b" THEN Lnk("a") ELSE IF odd /\ p = "c" THEN Spc("fifo", 420) ELSE C09File(p))
+                                   THEN (IF odd /\ p \in {"b", "ab"} THEN Lnk("a") ELSE IF odd /\ p = "c" THEN Spc("fifo", 420) ELSE C09File(p))
                                    ELSE Absent)
        ELSE IF p = "d" THEN (IF hasD THEN Dir(493) ELSE Absent)
        ELSE IF p \in C09Sub THEN (IF hasD /\ p \in dsub THEN C09File(p) ELSE Absent)
@@ -106,12 +106,13 @@ C11Perms == {0, 256, 365, 420, 511, 128}            \* 0000 0400 0555 0644 0777 
 C11Src(fp, dp, mt) ==
   With(With(With(With(With(With(With(With(EmptyFs, "d", Dir(dp)), "d/f", Reg(1, 20, mt, 0, fp)),
        "dev", Spc("chr", fp)), "f", Reg(2, 30, mt, 0, fp)), "k", Spc("fifo", fp)), "l", Lnk("d/f")), "ro", Dir(365)), "ro/f", Reg(3, 9, mt, 0, 292))
+C11SrcX(fp, dp, mt) == With(With(C11Src(fp, dp, mt), "e", Reg(5, 0, mt, 0, fp)), "g", Reg(6, 12, mt, 0, fp))   \* an EMPTY file and a file whose old copy is empty
 C11Prior(kind) ==
   IF kind = "absent" THEN EmptyFs
-  ELSE With(With(With(With(With(EmptyFs, "d", Dir(448)), "d/f", Reg(1, 20, 777, 0, 384)),   \* same content, other mtime/perm
-       "f", Reg(8, 30, 777, 0, 416)), "l", Lnk("zzz")), "ro", Dir(493))
+  ELSE With(With(With(With(With(With(With(EmptyFs, "d", Dir(448)), "d/f", Reg(1, 20, 777, 0, 384)),   \* same content, other mtime/perm
+       "f", Reg(8, 30, 777, 0, 416)), "l", Lnk("zzz")), "ro", Dir(493)), "e", Reg(9, 7, 777, 0, 384)), "g", Reg(9, 0, 777, 0, 384))
 C11Scn ==
-  { Scn(C11Prior(k), ListOf(C11Src(fp, dp, mt)), OX(TRUE, l, p, t, TRUE, TRUE, c, FALSE, FALSE, FALSE), 0, {}) :
+  { Scn(C11Prior(k), ListOf(C11SrcX(fp, dp, mt)), OX(TRUE, l, p, t, TRUE, TRUE, c, FALSE, FALSE, FALSE), 0, {}) :
       k \in {"absent", "present"}, fp \in C11Perms, dp \in {493, 365, 448, 320}, mt \in {1000, 1, 2000000000, 0 - 2, 0 - 2000000000},
       l \in BOOLEAN, p \in BOOLEAN, t \in BOOLEAN, c \in BOOLEAN }
 
@@ -139,13 +140,29 @@ C14Scn == { E2E(C14Src, C14Dst, OG(OX(TRUE, l, p, t, dv, sp, c, I, n, del), og, 
 (* Universe = <<".", "a", "b", "d", "d/a">>: every prior destination state of *)
 (* a file (absent, identical, different size, same size and other mtime,    *)
 (* same size and mtime but other content, directory / symlink in the way)   *)
-C01Src == With(With(With(With(EmptyFs, "a", Reg(1, 40, 1000, 0, 420)), "b", Reg(2, 0, 1000, 0, 420)), "d", Dir(493)), "d/a", Reg(3, 50, 1000, 0, 420))
+C01Src == With(With(With(With(With(EmptyFs, "a", Reg(1, 40, 1000, 0, 420)), "b", Reg(2, 0, 1000, 0, 420)), "d", Dir(493)), "d/a", Reg(3, 50, 1000, 0, 420)),
+                "d-", Reg(4, 20, 1000, 0, 420))      \* sorts between "d" and "d/a": list order differs from walk order
 C01States(s) == {Absent, s, Reg(9, s.sz + 3, 900, 0, 420), Reg(9, s.sz, 900, 0, 420), Reg(9, s.sz, s.mt, 0, 420), Dir(493), Lnk("b")}
 C01Scn == { E2E(C01Src, dst, OX(TRUE, FALSE, FALSE, t, FALSE, FALSE, c, I, FALSE, FALSE), <<>>) :
-              dst \in { With(With(With(With(EmptyFs, "a", sa), "b", sb), "d", sd), "d/a", IF sd.t = "dir" THEN sda ELSE Absent) :
+              dst \in { With(With(With(With(With(EmptyFs, "a", sa), "b", sb), "d", sd), "d/a", IF sd.t = "dir" THEN sda ELSE Absent), "d-", Reg(9, 20, 900, 0, 420)) :
                           sa \in C01States(C01Src["a"]), sb \in {Absent, C01Src["b"], Reg(9, 7, 900, 0, 420)},
                           sd \in {Absent, Dir(493), Reg(9, 5, 900, 0, 420)}, sda \in C01States(C01Src["d/a"]) },
               t \in BOOLEAN, c \in BOOLEAN, I \in BOOLEAN }
+
+(* =================================================================== rs *)
+(* the composed session specification (Rsync.tla), Universe U01: sources with *)
+(* and without "b", destinations empty / up to date / changed / with an       *)
+(* extraneous "b" / with a file in the way of "d"; -t, -n, --delete; rule     *)
+(* lists that exclude a file, a directory, or include before excluding        *)
+RsSrc(withB) == IF withB THEN C01Src ELSE With(C01Src, "b", Absent)
+RsDst(k) == CASE k = 1 -> EmptyFs
+              [] k = 2 -> C01Src
+              [] k = 3 -> With(With(C01Src, "a", Reg(9, 40, 900, 0, 420)), "d/a", Reg(9, 53, 1000, 0, 420))
+              [] k = 4 -> With(With(With(EmptyFs, "b", Reg(8, 6, 999, 0, 420)), "d", Reg(9, 5, 900, 0, 420)), "a", C01Src["a"])
+RsRules == { <<>>, <<[inc |-> FALSE, pat |-> "a"]>>, <<[inc |-> FALSE, pat |-> "d"]>>,
+             <<[inc |-> TRUE, pat |-> "a"], [inc |-> FALSE, pat |-> "a"], [inc |-> FALSE, pat |-> "b"]>> }
+RsScn == { E2E(RsSrc(wb), RsDst(k), OX(TRUE, FALSE, FALSE, t, FALSE, FALSE, FALSE, FALSE, n, del), rs) :
+             wb \in BOOLEAN, k \in 1..4, t \in BOOLEAN, n \in BOOLEAN, del \in BOOLEAN, rs \in RsRules }
 
 Scenarios == CASE Family = "c12" -> C12Scn
                [] Family = "c13" -> C13Scn
@@ -154,6 +171,7 @@ Scenarios == CASE Family = "c12" -> C12Scn
                [] Family = "c10" -> {s \in C10Scn : C10Valid(s)}
                [] Family = "c09" -> C09Scn
                [] Family = "c11" -> C11Scn
+               [] Family = "rs" -> RsScn
 
 ScnInit ==
   /\ \E s \in Scenarios : /\ fs0 = s.fs0 /\ list = s.list /\ opts = s.opts /\ ioerr = s.ioerr /\ prot = s.prot
@@ -168,7 +186,7 @@ ScnNext == SDeletePass \/ SGen \/ SRcv \/ SFinish \/ SStutter
 ScnSpec == ScnInit /\ [][ScnNext]_svars
 
 (* C13: the sender lists exactly the entries no exclude rule removes *)
-FilterExact == Family \in {"c13", "c14", "c01"} => \A p \in Paths : (p \in ListedNames(list)) = (Exists(srcv, p) /\ ~Excluded(rulesv, p) /\ opts.r)
+FilterExact == Family \in {"c13", "c14", "c01", "rs"} => \A p \in Paths : (p \in ListedNames(list)) = (Exists(srcv, p) /\ ~Excluded(rulesv, p) /\ opts.r)
 
 (* ---- emission: one JSON line per initial state, with the outcome the spec predicts *)
 NodesOf(tree) == LET F[k \in 0..Len(Universe)] ==
